@@ -237,7 +237,7 @@ func (ex *Exec) runVC() {
 				ex.setVal(phi, t)
 			}
 		} else {
-			ls := con.Loops[li.ord]
+			ls := loopSpecFor(con, li.ord)
 			// 1. invariant holds on entry
 			if ls != nil {
 				env := ex.loopEnv(st, b, phiEntry, li)
@@ -354,6 +354,18 @@ func (ex *Exec) runVC() {
 	ex.postconditions()
 }
 
+// loopSpecFor merges the clauses given for loop n with those given for every loop (`loop * ...`).
+func loopSpecFor(c *Contract, n int) *LoopSpec {
+	a, b := c.Loops[0], c.Loops[n]
+	if a == nil {
+		return b
+	}
+	if b == nil {
+		return a
+	}
+	return &LoopSpec{Invs: append(append([]*Clause{}, a.Invs...), b.Invs...), Decreases: b.Decreases, Modifies: append(append([]Expr{}, a.Modifies...), b.Modifies...)}
+}
+
 // allocBefore: the alloc set at loop entry (remembered so that the loop-head alloc set is known to include it)
 func allocBefore(ex *Exec, hdr *ssa.BasicBlock, st *State) string {
 	if ex.allocAtEntry == nil {
@@ -388,7 +400,7 @@ func (ex *Exec) emitEdge(from, to *ssa.BasicBlock, pc string, st *State, back ma
 	if back[key] {
 		// invariant preserved
 		li := loops[to]
-		ls := ex.c.Loops[li.ord]
+		ls := loopSpecFor(ex.c, li.ord)
 		for i, p := range to.Preds {
 			if p != from {
 				continue
